@@ -35,10 +35,17 @@ type liveReloadConn struct {
 	done    chan struct{}
 }
 
-// startServer starts or restarts the server
+// startServer starts or restarts the server. The new version is read, parsed
+// and set up before the running server is touched, so an edit that cannot be
+// loaded leaves the previous version serving.
 func (m *hotReloadManager) startServer() error {
 	m.mu.Lock()
 	defer m.mu.Unlock()
+
+	srv, useCompiler, err := m.buildDevServer()
+	if err != nil {
+		return err
+	}
 
 	// Stop existing server if running
 	if m.server != nil {
@@ -48,34 +55,31 @@ func (m *hotReloadManager) startServer() error {
 		time.Sleep(100 * time.Millisecond) // Allow port to be released
 	}
 
-	// Start dev server with live reload support
-	srv, err := m.startDevServerInternal()
-	if err != nil {
-		return err
-	}
+	m.listenDevServer(srv, useCompiler)
 
 	m.server = srv
 	return nil
 }
 
-// startDevServerInternal starts the development server with live reload support
-func (m *hotReloadManager) startDevServerInternal() (*http.Server, error) {
+// buildDevServer loads the source file and builds the development server
+// (with live reload support) for it without starting to listen.
+func (m *hotReloadManager) buildDevServer() (*http.Server, bool, error) {
 	// Read source file
 	source, err := os.ReadFile(m.filePath)
 	if err != nil {
-		return nil, fmt.Errorf("failed to read file: %w", err)
+		return nil, false, fmt.Errorf("failed to read file: %w", err)
 	}
 
 	// Parse the source
 	module, err := parseSource(string(source))
 	if err != nil {
-		return nil, fmt.Errorf("parse error: %w", err)
+		return nil, false, fmt.Errorf("parse error: %w", err)
 	}
 
 	// Use shared logic for route compilation/interpretation
 	useCompiler, _, wsServer, router, err := setupRoutes(module, m.filePath)
 	if err != nil {
-		return nil, err
+		return nil, false, err
 	}
 
 	// Create HTTP server with live reload support
@@ -103,7 +107,7 @@ func (m *hotReloadManager) startDevServerInternal() (*http.Server, error) {
 
 	// Register static file routes
 	if err := registerStaticRoutes(mux, module, m.filePath, m.port); err != nil {
-		return nil, err
+		return nil, false, err
 	}
 
 	srv := &http.Server{
@@ -115,6 +119,11 @@ func (m *hotReloadManager) startDevServerInternal() (*http.Server, error) {
 		MaxHeaderBytes: 1 << 20, // 1 MB
 	}
 
+	return srv, useCompiler, nil
+}
+
+// listenDevServer starts serving srv in the background.
+func (m *hotReloadManager) listenDevServer(srv *http.Server, useCompiler bool) {
 	// Start server in background
 	go func() {
 		mode := "compiled"
@@ -131,8 +140,6 @@ func (m *hotReloadManager) startDevServerInternal() (*http.Server, error) {
 
 	// Give server time to start
 	time.Sleep(100 * time.Millisecond)
-
-	return srv, nil
 }
 
 // handleLiveReload handles Server-Sent Events for live reload
